@@ -20,6 +20,7 @@ import (
 	"github.com/go-kid/ioc/component_definition"
 	"github.com/go-kid/ioc/configure"
 	"github.com/go-kid/ioc/configure/binder"
+	"github.com/go-kid/ioc/container/factory"
 	"github.com/go-kid/ioc/container/support"
 	"github.com/go-kid/ioc/syslog"
 	"github.com/go-kid/ioc/util/framework_helper"
@@ -43,6 +44,7 @@ type AScenario struct {
 	Seed       int64   `json:"seed"`
 	CloseOrder []int   `json:"closeOrder"`
 	Hold       float64 `json:"hold"`  // seconds every closer stays blocked after all have been invoked (a Close that gives up waiting shows)
+	Restart    bool    `json:"restart"` // after a successful start the SAME App is started again with a fresh registry / factory and no components
 	Cycle      bool    `json:"cycle"` // k000 <-> k001: the early reference of k000 is requested while k001 is populated
 }
 
@@ -343,6 +345,22 @@ func runAppScenario(sc *AScenario) []map[string]any {
 			app.SetComponents(comps...))
 	}()
 	l.emit("runReturn", map[string]any{"ok": err == nil, "panic": panicked})
+	if err == nil && sc.Restart {
+		// "exactly once per start": what the first start left in the App must not be invoked by the second one
+		l.emit("restart", nil)
+		cfg2 := configure.NewConfigure()
+		cfg2.SetBinder(binder.NewViperBinder("yaml"))
+		var err2 error
+		func() {
+			defer func() {
+				if x := recover(); x != nil {
+					err2 = fmt.Errorf("PANIC %v", x)
+				}
+			}()
+			err2 = ap.Run(app.LogLevel(syslog.LvPanic), app.SetConfigure(cfg2), app.SetRegistry(support.NewRegistry()), app.SetFactory(factory.Default()))
+		}()
+		l.emit("restartReturn", map[string]any{"ok": err2 == nil})
+	}
 	if err == nil {
 		done := make(chan struct{})
 		go func() {
